@@ -277,6 +277,67 @@ def law_arguments_untouched(sw, ell, name, rng):
                       f"return different values", case)
 
 
+def law_integer_arguments(sw, ell, name, rng):
+    """Whole-number coordinates handed over with an INTEGER type (Python int, numpy integer scalar, integer array -- the
+    semi-major axis of the library's own WGS84 is the int 6378137): the same position as the floats of the same value."""
+    g = sw.g
+    m = 5
+    lat = rng.integers(-80, 80, m)
+    lon = rng.integers(-170, 170, m)
+    h = rng.integers(-10, 1000, m) * 1000
+    r = (np.asarray(ell[0] + 600000 + rng.integers(0, 100000, m), dtype=np.int64))
+    za, aa = rng.integers(5, 175, m), rng.integers(-170, 170, m)
+    calls = [("geodetic2cart", lambda a, b, c: g.geodetic2cart(a, b, c, ell), [h, lat, lon]),
+             ("geodetic2geocentric", lambda a, b, c: g.geodetic2geocentric(a, b, c, ell), [h, lat, lon]),
+             ("geocentric2geodetic", lambda a, b, c: g.geocentric2geodetic(a, b, c, ell), [r, lat, lon]),
+             ("geocentric2cart", g.geocentric2cart, [r, lat, lon]),
+             ("ellipsoid_r_geocentric", lambda a: g.ellipsoid_r_geocentric(ell, a), [lat]),
+             ("ellipsoid_r_geodetic", lambda a: g.ellipsoid_r_geodetic(ell, a), [lat]),
+             ("geocentricposlos2cart", g.geocentricposlos2cart, [r, lat, lon, za, aa]),
+             ("great_circle_distance", g.great_circle_distance, [lat, lon, lat[::-1].copy(), lon[::-1].copy()]),
+             ("tunnel_distance", g.tunnel_distance, [lat, lon, lat[::-1].copy(), lon[::-1].copy()])]
+    for fname, fn, args in calls:
+        ints = [np.asarray(a, dtype=np.int64) for a in args]
+        case = {"law": "integer-arguments", "fn": fname, "ellipsoid": name, "ell": list(ell), "args": [a.tolist() for a in ints]}
+        want = sw.call("integer-arguments", case, fn, *[a.astype(np.float64) for a in ints])
+        if want is None:
+            continue
+        want = [np.asarray(v, dtype=float) for v in (want if isinstance(want, tuple) else (want,))]
+        forms = {"integer arrays": lambda: fn(*ints),
+                 "Python ints": lambda: fn(*[int(a[0]) for a in ints]),
+                 "numpy integer scalars": lambda: fn(*[a[0] for a in ints])}
+        for form, thunk in forms.items():
+            got = sw.call("integer-arguments", dict(case, form=form), thunk)
+            if got is None:
+                continue
+            got = [np.asarray(v, dtype=float) for v in (got if isinstance(got, tuple) else (got,))]
+            for k, (u, v) in enumerate(zip(got, want)):
+                ref = v if form == "integer arrays" else v.ravel()[:1]
+                u = u.ravel() if form != "integer arrays" else u
+                if u.shape != ref.shape or not np.all(np.abs(u - ref) <= 1e-9 * np.maximum(np.abs(ref), 1.0) + 1e-9):
+                    sw.report("integer-arguments:" + fname,
+                              f"{fname}(..., {name}) with {form} returns {u.ravel()[:3].tolist()} as result {k}, with the same values "
+                              f"as floats {ref.ravel()[:3].tolist()}", dict(case, form=form))
+                    break
+    # position + line of sight round trip from integer-typed arguments
+    case = {"law": "integer-arguments", "fn": "los-roundtrip", "ellipsoid": name, "ell": list(ell)}
+    for form, conv in (("integer arrays", lambda a: np.asarray(a, dtype=np.int64)), ("Python ints", lambda a: int(a[0]))):
+        out = sw.call("integer-arguments", dict(case, form=form),
+                      lambda: g.cartposlos2geocentric(*g.geocentricposlos2cart(conv(r), conv(lat), conv(lon), conv(za), conv(aa))))
+        if out is None:
+            continue
+        r2, lat2, lon2, za2, aa2 = (np.asarray(v, dtype=float).ravel() for v in out)
+        k = slice(None) if form == "integer arrays" else slice(0, 1)
+        ok = (np.all(np.abs(r2 - r[k]) <= 1e-3) and np.all(np.abs(lat2 - lat[k]) <= 1e-6) and np.all(np.abs(za2 - za[k]) <= 1e-6)
+              and np.all(np.abs(angdiff(aa2, aa[k].astype(float))) <= 1e-5 / np.sin(np.radians(za[k])) ** 2))
+        if not ok:
+            sw.report("integer-arguments:los-roundtrip",
+                      f"cartposlos2geocentric(geocentricposlos2cart(...)) from {form} (r, lat, lon, za, aa) = "
+                      f"({r[k][:2].tolist()}, {lat[k][:2].tolist()}, {lon[k][:2].tolist()}, {za[k][:2].tolist()}, {aa[k][:2].tolist()}) came back as "
+                      f"({r2[:2].tolist()}, {lat2[:2].tolist()}, {lon2[:2].tolist()}, {za2[:2].tolist()}, {aa2[:2].tolist()})",
+                      dict(case, form=form))
+
+
 def law_geodetic_roundtrip(sw, ell, h, lat, lon, name):
     """scalar calls: cart2geodetic(geodetic2cart(p)) = p to 1 cm / 1e-7 deg"""
     g = sw.g
@@ -571,6 +632,7 @@ def law_sweep(ctx, g, counter=None):
         for i in range(latc.size):
             law_cartesian_roundtrip(sw, ell, float(rr[i]), float(latc[i]), float(lonc[i]), name)
         law_arguments_untouched(sw, ell, name, rng)
+        law_integer_arguments(sw, ell, name, rng)
     # line of sight
     n = ctx.n(4000, 200000)
     r = rng.uniform(3.3e6, 7.5e6, n)
